@@ -11,6 +11,9 @@ tie         : generated (population spread over 1-4 REAL index files with shadow
                 strict    : the Lean engine model (`search`: accumulator, scans, shadowing) run on the
                             real scan order of every file returns exactly the real result,
                 the engine model's own result satisfies the spec, the model's shadowing = the oracle's.
+              accept table: `c02 accept` runs the real search with hand-built TagConditions (masks 1..15, three tag
+              tables: nothing undecided / undecided with agreeing / with stale recorded answers) -> `pkmodel c02`
+              compares the returned ids with `tagAccept` and `tagAcceptSpec` (theorem filter_tag_accept_sound).
 oracle      : Go, inside the harness, written from the property statement (plain evaluation of the AST
               per visible stream, positional comparison with the sorted match list); independent of
               the Lean model.
@@ -258,8 +261,27 @@ def run(tier, seed, replay=None):
         return rep.finish()
     tie = CaseTie(binpath, "c02")
 
+    # accept-table stage: the modelled switch `Pk.Search.tagAccept` (theorem filter_tag_accept_sound) against the
+    # real filter, driven through index.SearchStreams with hand-built TagConditions (3 tables x masks 1..15)
+    acc_bad, acc_n = [], 0
+    rc, o, e = pk.sh([binpath, "accept"], timeout=120)
+    acc_lines = [l for l in o.splitlines() if l.strip()]
+    if rc != 0 or len(acc_lines) != 45:
+        acc_bad.append({"line": None, "model": "harness `c02 accept` rc=%s, %d lines: %s" % (rc, len(acc_lines), e[-300:])})
+    else:
+        rc2, mo, me = pk.run_model("c02", "\n".join(acc_lines) + "\n", timeout=120)
+        mls = mo.splitlines()
+        for i, l in enumerate(acc_lines):
+            acc_n += 1
+            if i >= len(mls) or not mls[i].endswith("same=1"):
+                acc_bad.append({"line": json.loads(l), "model": mls[i] if i < len(mls) else "missing (%s)" % me[-200:]})
+
     if replay:
         data = json.load(open(replay))
+        if "accept_table" in data:
+            for b in acc_bad:
+                print("accept table:", json.dumps(b))
+            return 1 if acc_bad else 0
         r = tie.run_one(data["case"] if "case" in data else data)
         print("query      :", (r.impl or {}).get("query"))
         print("real result:", (r.impl or {}).get("res"), "more=", (r.impl or {}).get("more"), "err=", (r.impl or {}).get("err"), r.error)
@@ -376,6 +398,11 @@ def run(tier, seed, replay=None):
                     "source": name, "case": shrunk, "query": (rr.impl or {}).get("query"),
                     "first_difference": tie_breaks(rr) or tb, "impl": {"res": (rr.impl or {}).get("res"), "more": (rr.impl or {}).get("more")},
                     "model": rr.model, "searched": len(cases)}, no_input=True)
+    if acc_bad and not rep.violations:
+        rep.replay({"broken": "correspondence C02 accept table (`Pk.Search.tagAccept` / `tagAcceptSpec` vs the tag filter of the real "
+                              "search for hand-built accept masks) no longer checks",
+                    "accept_table": acc_bad[:8], "bits": "1 matching, 2 failing, 4 undecided+matching, 8 undecided+failing",
+                    "searched": len(cases)}, no_input=True)
     if not ob.ok and not rep.violations:
         rep.replay({"broken": "proof obligations of Pk.Props.C02", "failed": ob.failed[:20], "log": ob.log[-2000:],
                     "searched": len(cases)}, no_input=True)
@@ -406,6 +433,7 @@ def run(tier, seed, replay=None):
                 "(query text, limit, skip, file contents in scan order, id restriction)",
         "samples": [sample] if sample else [],
         "cases": len(cases), "corpus_cases": ncorpus, "regimes": dict(reg), "skipped": dict(skipped),
+        "accept_table_entries": acc_n, "accept_table_differences": len(acc_bad),
         "model_impl_differences": len(breaks), "oracle_failures": len(fails),
         "oracle_failures_attributed_to_known_findings": len(attributed),
     })
